@@ -25,6 +25,7 @@ def run(ctx):
     singular.check_support_filters(ctx)
     singular.check_result_layout(ctx)
     sparse.assembler(ctx)
+    sparse.kernels(ctx)  # the element integrals the sparse scatter distributes: taken on the element, not its position
     spaces.coefficient_maps(ctx)
     pts = bary.ref_points(ctx)
     r = ctx.rule("REFINE-CHILDREN", "children of refine() / barycentric refinement are positively oriented and their areas sum to the parent's", 12)
